@@ -123,6 +123,10 @@ type regHost struct {
 	failure      string // "" | status-500 | status-403 | bad-json | no-token | status-404
 	challengeMut string // "" | superset | reordered | duplicate
 	spurious401  int    // answer 401 to this many otherwise valid bearer requests
+	// bearerDeny: what the 401 to a request that carried a bearer token looks like
+	// ("" = the usual challenge, "none" = no Www-Authenticate at all, "unknown" =
+	// only schemes the client does not speak, "malformed")
+	bearerDeny string
 	quotedRealm  bool
 	requireCreds bool
 	service      string
@@ -262,7 +266,18 @@ func (w *authWorld) serveRegistry(h *regHost, rw http.ResponseWriter, req *http.
 	o := w.outFor(req)
 	demand := parseNaive(req.Header.Get("X-Demand"))
 	deny := func() {
-		for _, c := range w.challenge(h, req.Header.Get("X-Demand")) {
+		chals := w.challenge(h, req.Header.Get("X-Demand"))
+		if strings.HasPrefix(req.Header.Get("Authorization"), "Bearer ") {
+			switch h.bearerDeny {
+			case "none":
+				chals = nil
+			case "unknown":
+				chals = []string{`Negotiate`, `Digest realm="x", nonce="abc"`}
+			case "malformed":
+				chals = []string{`Bearer realm="unterminated`}
+			}
+		}
+		for _, c := range chals {
 			rw.Header().Add("Www-Authenticate", c)
 			if strings.HasPrefix(c, "Basic") {
 				w.basicChallenged[h.name] = true
